@@ -23,6 +23,23 @@ def load_mutants(pid):
     return json.load(open(p))
 
 
+# which header(s) a property's check reads: a patch that touches none of them cannot change its verdict
+ALLP = {"C%02d" % k for k in range(1, 21)}
+READS = {"SplineTrajectory.hpp": ALLP - {"C17"},           # the optimizer checks read the spline's constants and basis rows too
+         "SplineOptimizer.hpp": {"C07", "C08", "C09", "C10", "C12", "C15", "C16", "C17", "C19"}}
+
+
+def patch_relevant(pid, patch_file):
+    try:
+        txt = open(patch_file).read()
+    except OSError:
+        return True
+    touched = {h for h in READS if ("include/" + h) in txt}
+    if not touched:
+        return True
+    return any(pid.upper() in READS[h] for h in touched)
+
+
 def load_campaign(pid):
     """The outside changes kept under /verif/benign and /verif/seeded as further self-validation cases for one property:
     every behaviour-preserving refactoring must not be reported as a violation (pass, or analysis-broken where a rule does
@@ -31,7 +48,7 @@ def load_campaign(pid):
     bd = os.path.join(VERIF, "benign")
     for sid in sorted(os.listdir(bd)) if os.path.isdir(bd) else []:
         pf = os.path.join(bd, sid, "patch.diff")
-        if os.path.exists(pf):
+        if os.path.exists(pf) and patch_relevant(pid, pf):
             out.append({"name": "refactoring-" + sid, "patch": pf, "expect": "no-violation"})
     sd = os.path.join(VERIF, "seeded")
     for sid in sorted(os.listdir(sd)) if os.path.isdir(sd) else []:
